@@ -270,22 +270,103 @@ def check_assumptions_output(out, n_expected, allow_extra=()):
 
 
 # ------------------------------------------------------------------ harness
-def harness_build(bins=("scan",), release=False, timeout=1500):
+# Cargo decides whether a path dependency must be rebuilt from modification times.  A working tree whose files change
+# content while their times go backwards (a change to /repo undone by restoring the saved files, a checkout restored
+# from a snapshot) would leave the previous build in place: the harness would run code that is no longer in /repo.
+# Every build of code from /repo therefore goes through cargo_build: a digest of the *content* of the local sources
+# is kept beside the build output, and when it differs from the digest of the last successful build the cargo
+# fingerprints of the local packages are removed, which makes cargo compile them again (rustc's incremental cache is
+# content-addressed, so what did not change is reused).
+_SRC_DIRS = ("boreal", "boreal-parser", "boreal-cli", "boreal-test-helpers")
+_SRC_SKIP = {"target", ".git", "assets", "__pycache__"}
+
+
+def _digest_tree(h, root):
+    if os.path.isfile(root):
+        h.update(root.encode() + b"\0")
+        h.update(hashlib.sha256(open(root, "rb").read()).digest())
+        return
+    for dp, dns, fns in os.walk(root):
+        dns[:] = sorted(d for d in dns if d not in _SRC_SKIP)
+        for fn in sorted(fns):
+            p = os.path.join(dp, fn)
+            try:
+                data = open(p, "rb").read()
+            except OSError:
+                continue
+            h.update(p.encode() + b"\0")
+            h.update(hashlib.sha256(data).digest())
+
+
+def source_digest(crate_dir=None):
+    """sha256 over the content of everything cargo compiles from local paths: /repo's packages and manifests and,
+    when given, the harness crate itself (test assets and build output excluded)."""
+    h = hashlib.sha256()
+    for d in _SRC_DIRS:
+        _digest_tree(h, os.path.join(REPO, d))
+    for f in ("Cargo.toml", "Cargo.lock"):
+        if os.path.exists(os.path.join(REPO, f)):
+            _digest_tree(h, os.path.join(REPO, f))
+    if crate_dir and os.path.abspath(crate_dir) != os.path.abspath(REPO):
+        for f in ("src", "Cargo.toml", "Cargo.lock", "build.rs", os.path.join(".cargo", "config.toml")):
+            if os.path.exists(os.path.join(crate_dir, f)):
+                _digest_tree(h, os.path.join(crate_dir, f))
+    return h.hexdigest()
+
+
+def cargo_build(cmd, cwd, profile_dir, pkgs, timeout=1500, env=None, retry=None):
+    """Run the cargo command `cmd` in `cwd` so that its output reflects the current content of the local sources
+    (see above).  `profile_dir`: debug | release | checked; `pkgs`: names of the local packages.  Call with the
+    cargo lock of that target directory held.  `retry`: called once after a failed build, before a second attempt."""
+    tdir = os.path.join(cwd, "target", profile_dir)
+    stamp = os.path.join(tdir, ".verif_source_digest")
+    digest = source_digest(cwd)
+    try:
+        last = open(stamp).read().strip()
+    except OSError:
+        last = None
+    if last != digest:
+        try:
+            os.remove(stamp)
+        except OSError:
+            pass
+        fpd = os.path.join(tdir, ".fingerprint")
+        rx = re.compile(r"^(%s)-[0-9a-f]{16}$" % "|".join(re.escape(p.replace("-", "_")) + "|" + re.escape(p) for p in pkgs))
+        if os.path.isdir(fpd):
+            for e in os.listdir(fpd):
+                if rx.match(e):
+                    shutil.rmtree(os.path.join(fpd, e), ignore_errors=True)
+    rc, out = sh(cmd, cwd=cwd, timeout=timeout, env=env)
+    if rc != 0 and retry is not None:
+        retry()
+        rc, out = sh(cmd, cwd=cwd, timeout=timeout, env=env)
+    if rc == 0 and source_digest(cwd) == digest:
+        os.makedirs(tdir, exist_ok=True)
+        with open(stamp, "w") as f:
+            f.write(digest + "\n")
+    return rc, out
+
+
+HARNESS_PKGS = ("boreal", "boreal-parser", "bvh")
+
+
+def harness_build(bins=("scan",), release=False, timeout=1500, profile=None):
+    """profile: None (dev, or release when `release`) or the name of a custom profile of harness/Cargo.toml"""
     with Lock("cargo"):
         lock_src = os.path.join(REPO, "Cargo.lock")
         lock_dst = os.path.join(HARNESS, "Cargo.lock")
         if not os.path.exists(lock_dst):
             shutil.copy(lock_src, lock_dst)
-        cmd = ["cargo", "build", "--offline", "--quiet"] + (["--release"] if release else [])
+        pdir = profile or ("release" if release else "debug")
+        cmd = ["cargo", "build", "--offline", "--quiet"] + (["--profile", profile] if profile else
+                                                              (["--release"] if release else []))
         for b in bins:
             cmd += ["--bin", b]
         env = {"CARGO_NET_OFFLINE": "true", "RUSTFLAGS": "--cfg boreal_verif"}
-        rc, out = sh(cmd, cwd=HARNESS, timeout=timeout, env=env)
-        if rc != 0:
-            # a stale lock file can be the cause: retry once from the repo's lock
-            shutil.copy(lock_src, lock_dst)
-            rc, out = sh(cmd, cwd=HARNESS, timeout=timeout, env=env)
-        bind = os.path.join(HARNESS, "target", "release" if release else "debug")
+        # a stale lock file can be the cause of a failure: retry once from the repo's lock
+        rc, out = cargo_build(cmd, HARNESS, pdir, HARNESS_PKGS, timeout=timeout, env=env,
+                              retry=lambda: shutil.copy(lock_src, lock_dst))
+        bind = os.path.join(HARNESS, "target", pdir)
         return rc == 0, out, bind
 
 
@@ -405,6 +486,55 @@ def load_known_findings():
         return json.load(open(p))
     except FileNotFoundError:
         return {"findings": []}
+
+
+# Case files kept under corpus/ name files of this tree (assets of /repo, synthetic files of .work/) with the
+# placeholders ${REPO} and ${VERIF}: a case recorded in one place (a scratch copy, another checkout) must replay in
+# any other.  Absolute paths written by earlier versions of the tools (…/repo/…, …/verif/.work/…) are mapped too.
+_LEGACY = [(re.compile(r"^/(?:[^/]+/)*?repo/(?=boreal[^/]*/)"), "${REPO}/"),
+           (re.compile(r"^/(?:[^/]+/)*?verif/(?=\.work/|corpus/|harness/)"), "${VERIF}/")]
+
+
+def _map_strings(o, f):
+    if isinstance(o, str):
+        return f(o)
+    if isinstance(o, list):
+        return [_map_strings(x, f) for x in o]
+    if isinstance(o, dict):
+        return {k: _map_strings(v, f) for k, v in o.items()}
+    return o
+
+
+def portable_paths(o):
+    """absolute paths into this tree -> placeholders (for files committed under corpus/)"""
+    def f(s):
+        for pre, ph in ((REPO + "/", "${REPO}/"), (VERIF + "/", "${VERIF}/")):
+            if s.startswith(pre):
+                return ph + s[len(pre):]
+        for rx, ph in _LEGACY:
+            if rx.match(s):
+                return rx.sub(ph, s, 1)
+        return s
+    return _map_strings(o, f)
+
+
+def local_paths(o):
+    """placeholders (and legacy absolute paths) -> paths of this tree"""
+    def f(s):
+        for rx, ph in _LEGACY:
+            if rx.match(s):
+                s = rx.sub(ph, s, 1)
+                break
+        if s.startswith("${REPO}/"):
+            return REPO + s[len("${REPO}"):]
+        if s.startswith("${VERIF}/"):
+            return VERIF + s[len("${VERIF}"):]
+        return s
+    return _map_strings(o, f)
+
+
+def load_case_file(path):
+    return local_paths(json.load(open(path)))
 
 
 def write_replay(prop, seed, name, obj):
